@@ -124,6 +124,14 @@ def stepLine (line : String) : String :=
       | some ms => "some " ++ toString ms.length ++ (String.join (ms.map fun m =>
           " " ++ showBytes m.method ++ " " ++ showBytes m.target ++ " " ++ showBlock m.fields ++ " " ++ showBytes m.body))
     | none => "bad-op"
+  | ["refresp", eof, m, h] =>
+    match hexOr m, hexOr h with
+    | some m, some bs =>
+      match Ref.parseResp (eof == "1") [m] bs with
+      | none => "R:none"
+      | some ms => "R:some " ++ toString ms.length ++ (String.join (ms.map fun r =>
+          " " ++ toString r.status ++ " " ++ showBytes r.reason ++ " " ++ showBlock r.fields ++ " " ++ showBytes r.body))
+    | _, _ => "bad-op"
   | _ => "bad-op"
 
 end C06Driver
